@@ -98,9 +98,36 @@ def active():
     return CUR is not None
 
 
+_WATCH = {"deadline": None, "ctx": None, "started": False}
+
+
+def _watchdog():
+    # z3's own timeout is not always honoured inside nonlinear arithmetic: interrupt the context ourselves
+    while True:
+        time.sleep(1.0)
+        d = _WATCH["deadline"]
+        if d is not None and time.time() > d:
+            try:
+                _WATCH["ctx"].interrupt()
+            except Exception:  # noqa: BLE001
+                pass
+            _WATCH["deadline"] = None
+
+
 def _check(s, *extra):
     t = time.time()
-    r = s.check(*extra)
+    if not _WATCH["started"]:
+        import threading
+
+        _WATCH["started"] = True
+        threading.Thread(target=_watchdog, daemon=True).start()
+    _WATCH["ctx"] = s.ctx
+    _WATCH["deadline"] = t + QUERY_TIMEOUT_MS / 1000.0 + 5
+    try:
+        r = s.check(*extra)
+    except z3.Z3Exception:
+        r = z3.unknown
+    _WATCH["deadline"] = None
     STATS.queries += 1
     STATS.solver_s += time.time() - t
     if r == z3.unknown:
